@@ -387,6 +387,7 @@ func rpcPagerHistory(c *Ctx, id int) {
 
 	znn := func(units int64) *big.Int { return new(big.Int).Mul(big.NewInt(units), big.NewInt(g.Zexp)) }
 	zero := big.NewInt(0)
+	xgLastSend := ""
 	call := func(from, to types.Address, tok types.ZenonTokenStandard, amount *big.Int, data []byte) bool {
 		_, err := n.Submit(&nom.AccountBlock{BlockType: nom.BlockTypeUserSend, Address: from, ToAddress: to, TokenStandard: tok, Amount: amount, Data: data})
 		if err != nil {
@@ -394,13 +395,31 @@ func rpcPagerHistory(c *Ctx, id int) {
 			c.Emit("#pager setup: send %s -> %s refused: %v", addrName(from), addrName(to), err)
 			return false
 		}
+		xgLastSend = fmt.Sprintf("%s -> %s (%d bytes of data)", addrName(from), addrName(to), len(data))
 		return true
+	}
+	// the cross-getter / contract-storage statement of s_rpc_xgetters.go at every step of the setup at which something happens (a
+	// momentum that confirms blocks, or after which the pool holds the contracts' unconfirmed receive blocks): the bridge and
+	// liquidity getters are only reachable on this ledger. One long-lived set of API objects, no random draw.
+	xgSvcs := rpcServicesOf(n.Z)
+	xgFails := 0
+	xgFail := func(format string, a ...interface{}) {
+		if xgFails++; xgFails <= 6 {
+			c.Fail("rpc run=%d pagers: %s", id, fmt.Sprintf(format, a...))
+		}
 	}
 	advance := func(k int) bool {
 		for i := 0; i < k; i++ {
-			if _, err := n.Momentum(); err != nil {
+			dm, err := n.Momentum()
+			if err != nil {
 				fail("setup: momentum production failed: %v", err)
 				return false
+			}
+			if pooled := len(n.Chain().GetAllUncommittedAccountBlocks()); len(dm.AccountBlocks) > 0 || pooled > 0 {
+				xgObserve(c, n.Chain(), xgSvcs, xgFail, func() string {
+					return fmt.Sprintf("pager setup at height %d: the last momentum confirmed %d block(s), %d unconfirmed block(s) in the pool; last call sent: %s", n.Height(), len(dm.AccountBlocks), pooled, xgLastSend)
+				}, nil)
+				c.Hit("xg-pager-setup-observation")
 			}
 		}
 		return true
